@@ -21,6 +21,7 @@ CONSTANTS
   MaxEntries = %d
   MaxArgs = %d
   KeyMode = "real"
+  CwdMode = "real"
 INVARIANT DesignOK
 CHECK_DEADLOCK FALSE
 """
@@ -30,6 +31,7 @@ CONSTANTS
   MaxEntries = %d
   MaxArgs = 1
   KeyMode = "real"
+  CwdMode = "real"
   OutFile = "%s"
 CHECK_DEADLOCK FALSE
 """
@@ -39,6 +41,7 @@ CONSTANTS
   MaxEntries = 3
   MaxArgs = 3
   KeyMode = "real"
+  CwdMode = "real"
   TraceFile = "%s"
   OutFile = "%s"
 INVARIANT Flush
@@ -98,6 +101,9 @@ def materialise(t, args, sid, rng=None):
         subs = [n for n in t["top"] if n in DIRS]
         if subs and rng.random() < 0.5:
             cwd = [rng.choice(subs)]
+    # ... and it may have been entered through the link that lies next to the tree (cd wl; cd wl/sub): PWD then
+    # spells it through the link, the directory itself is the same (Discover.tla: cwdvia)
+    cwdvia = "l" if rng is not None and rng.random() < 0.3 else "w"
     for a in args:
         p = "/".join(a["path"])
         if a["abs"] == "1":
@@ -117,8 +123,8 @@ def materialise(t, args, sid, rng=None):
         if a["dots"] == "1":
             s += "/..."
         argv.append(s)
-    return dict(id=sid, files=files, dirs=["w"] + dirs, symlinks=links, args=argv, stdin="", cwd="/".join(["w"] + cwd), strace=False,
-                meta=dict(tree=t, args=args, cwd=cwd))
+    return dict(id=sid, files=files, dirs=["w"] + dirs, symlinks=links, args=argv, stdin="", cwd="/".join([{"w": "w", "l": "wl"}[cwdvia]] + cwd), pwd_logical=cwdvia != "w", strace=False,
+                meta=dict(tree=t, args=args, cwd=cwd, cwdvia=cwdvia))
 
 
 def observe(rec):
@@ -200,7 +206,7 @@ def run(ctx):
             for rec in parts[ix]:
                 t = rec["meta"]["tree"]
                 kids = {d: t["kids"].get(d, []) for d in DIRS}
-                lines.append(dict(id=rec["id"], top=t["top"], kids=kids, args=rec["meta"]["args"], obs=observe(rec)))
+                lines.append(dict(id=rec["id"], top=t["top"], kids=kids, args=rec["meta"]["args"], cwdvia=rec["meta"].get("cwdvia", "w"), obs=observe(rec)))
             if os.environ.get("VERIF_SELFTEST") == "corrupt" and ix == 0:
                 # falsify one observation: the first run that patched something is recorded as having patched nothing
                 for ln in lines:
